@@ -12,7 +12,15 @@ def seq(s, ranked=False):
 
 
 def gen(cases, path):
-    lines = ["#include <covfie/core/utility/static_permutation.hpp>", "#include <cstdio>", "#include <utility>",
+    # every core header is included next to the metaprograms: a specialisation of sort_index_sequence / is_permutation added by
+    # any other header (a layer, the concepts) must not change their results in a translation unit that uses the library
+    ALL = ["algebra/affine", "algebra/matrix", "algebra/vector", "array", "backend/primitive/array", "backend/primitive/constant",
+           "backend/primitive/identity", "backend/transformer/affine", "backend/transformer/backup", "backend/transformer/clamp",
+           "backend/transformer/covariant_cast", "backend/transformer/dereference", "backend/transformer/hilbert",
+           "backend/transformer/linear", "backend/transformer/morton", "backend/transformer/nearest_neighbour",
+           "backend/transformer/shuffle", "backend/transformer/strided", "concepts", "field", "field_view", "parameter_pack",
+           "utility/backend_traits", "utility/binary_io", "utility/nd_map", "utility/nd_size", "utility/numeric", "vector"]
+    lines = ["#include <covfie/core/%s.hpp>" % h for h in ALL] + ["#include <covfie/core/utility/static_permutation.hpp>", "#include <cstdio>", "#include <utility>",
              "#include <type_traits>", "using namespace covfie::utility;",
              "template <std::size_t... I> using S = std::index_sequence<I...>;",
              "static constexpr bool R[] = {"]
